@@ -202,6 +202,24 @@ class CallsMixin:
             return z3.And(notnone, f(v.t))
         return z3.BoolVal(False)
 
+    def b_issubclass(self, args, kwargs, node):
+        v, cls = args
+        cname = cls.name if isinstance(cls, PyObj) and cls.tag in ('module', 'class', 'excclass', 'builtin') else None
+        if cname is None or isinstance(v, PyObj):
+            raise Unsupported('issubclass(%r, %r)' % (v, cls))
+        k = v.kind
+        notnone = z3.BoolVal(True)
+        if isinstance(k, K.Opt):
+            notnone = z3.Not(K.opt_isnone(v))
+            v = K.opt_inner(v)
+            k = v.kind
+        if not isinstance(k, K.Atom):
+            raise Unsupported('issubclass on %r' % (k,))
+        f = self.p.ctx.ufunc('issubclass!%s' % cname, k.leaf_sorts()[0], z3.BoolSort())
+        if not self.spec and not z3.is_true(simp(notnone)):
+            self.implicit_raise(notnone, 'TypeError', 'issubclass() arg 1 must be a class', node)
+        return K.vbool(f(v.t))
+
     def b_list(self, args, kwargs, node):
         if not args:
             return PyObj('emptylist')
@@ -518,6 +536,8 @@ class CallsMixin:
         if self.old_env is None:
             raise Unsupported('old() outside a postcondition')
         saved = (self.env, self.p.heap, self.p.globals, self.old_env)
+        saved_epoch = self.p.heap_epoch
+        self.p.heap_epoch = getattr(self, 'old_epoch', saved_epoch)
         self.env, self.p.heap, self.p.globals = dict(self.old_env), dict(self.old_heap), \
             dict(self.old_globals)
         # quantifier-bound / spec-local names stay visible inside old()
@@ -528,6 +548,7 @@ class CallsMixin:
             return self.eval(node.args[0])
         finally:
             self.env, self.p.heap, self.p.globals = saved[0], saved[1], saved[2]
+            self.p.heap_epoch = saved_epoch
 
     def sp_unchanged(self, node):
         """unchanged('Class.field', ...) - heap arrays identical to the pre-state."""
@@ -664,8 +685,8 @@ class CallsMixin:
                 has = K.map_has(base, args[0])
                 if self.spec:
                     got = K.map_get(base, args[0])
-                    return self.ite(has, K.coerce(got, K.Opt(k.val)) if isinstance(dflt.kind, K._None) else got,
-                                    K.coerce(dflt, K.Opt(k.val)) if isinstance(dflt.kind, K._None) else dflt)
+                    return self.ite(has, K.coerce(got, K.optk(k.val)) if isinstance(dflt.kind, K._None) else got,
+                                    K.coerce(dflt, K.optk(k.val)) if isinstance(dflt.kind, K._None) else dflt)
                 if self.branch(has):
                     got = K.map_get(base, args[0])
                     self.assume_valid(got)
@@ -696,6 +717,18 @@ class CallsMixin:
                 return PyObj('mapview', map=base, what=name)
             elif name == 'copy':
                 return base
+            elif name == 'update' and len(args) == 1 and isinstance(args[0], V) and isinstance(args[0].kind, K.Map):
+                other = K.V(k, args[0].terms) if args[0].kind == k else None
+                if other is None:
+                    raise Unsupported('dict.update with a different dict kind')
+                upd = self.p.fresh_value(k, 'upd')
+                self.assume_valid(upd)
+                kx = self.p.fresh('upd!k', k.key.leaf_sorts()[0])
+                self.p.assume(K.forall([kx], z3.And(
+                    z3.Select(upd.terms[3], kx) == z3.Or(z3.Select(base.terms[3], kx), z3.Select(other.terms[3], kx)),
+                    *[z3.Select(u, kx) == z3.If(z3.Select(other.terms[3], kx), z3.Select(o, kx), z3.Select(b, kx))
+                      for u, o, b in zip(upd.terms[5:], other.terms[5:], base.terms[5:])]),
+                    patterns=[z3.Select(upd.terms[3], kx)] + [z3.Select(u, kx) for u in upd.terms[5:6]]))
             elif name == 'clear':
                 upd = K.empty_map(k.key, k.val)
         elif isinstance(k, K.Rec):
@@ -710,7 +743,7 @@ class CallsMixin:
                 off, fk = k.slot(key)
                 got = V(fk, base.terms[off + 1:off + 1 + fk.nleaves()])
                 if self.spec:
-                    tk = fk if not isinstance(dflt.kind, K._None) else (fk if isinstance(fk, K.Opt) else K.Opt(fk))
+                    tk = fk if not isinstance(dflt.kind, K._None) else K.optk(fk)
                     return self.ite(base.terms[off], K.coerce(got, tk), K.coerce(dflt, tk))
                 if self.branch(base.terms[off]):
                     return got
@@ -824,12 +857,18 @@ class CallsMixin:
             vk = c.params.get(c.vararg)
             if vk is not None and isinstance(bound[c.vararg], V):
                 bound[c.vararg] = K.coerce(bound[c.vararg], vk)
-        for n, v in kwargs.items():
+        extra_kw = {}
+        for n, v in list(kwargs.items()):
+            if n not in names and c.kwarg:
+                extra_kw[n] = v
+                continue
             if n not in names:
                 raise Unsupported('%s: keyword %r not declared in contract' % (c.name, n))
             if n in bound:
                 raise PyRaise('TypeError', None, 'multiple values for %s' % n)
             bound[n] = v
+        if c.kwarg:
+            bound[c.kwarg] = PyObj('pykwargs', items=extra_kw)
         for n in names:
             if n not in bound and c.params[n] is None:
                 bound[n] = PyObj('unbound', name=n)
@@ -990,6 +1029,7 @@ class CallsMixin:
         self.old_heap = dict(self.p.heap)
         self.old_globals = dict(self.p.globals)
         self.old_alloc = self.p.alloc
+        self.old_epoch = self.p.heap_epoch
 
     def havoc_modifies(self, c, sub):
         for m in c.modifies:
